@@ -266,6 +266,26 @@ def header_fact_list(nlo, nhi, vlo, vhi, a, b):
     ]
 
 
+def extra_header_facts(nlo, nhi, vlo, vhi, a, b, lrfs):
+    """clauses of parse_headers that downstream consumers do not need: right trim, no outer OWS, field size"""
+    q = qvar("q")
+    le = fcrlf(nlo)
+    rng = lambda lo, hi, pred: z3.ForAll([q], Implies(And(lo <= q, q < hi), pred(Tsel(q))))
+    return [
+        ("only-OWS-trimmed-right", rng(vhi, le, lambda c: in_class(c, OWS))),
+        ("value-has-no-outer-OWS", Implies(vlo < vhi, And(Not(in_class(Tsel(vlo), OWS)), Not(in_class(Tsel(vhi - 1), OWS))))),
+        ("field-size-within-limit", Implies(lrfs > 0, le - nlo + 2 <= lrfs)),
+    ]
+
+
+def _each_extra(seq, a, b, lrfs, k):
+    j = qvar("j")
+    return z3.ForAll([j], Implies(And(0 <= j, j < seq.hi), extra_header_facts(*hdr_windows(seq, j), a, b, lrfs)[k][1]))
+
+
+EXTRA_NAMES = ["only-OWS-trimmed-right", "value-has-no-outer-OWS", "field-size-within-limit"]
+
+
 def header_facts(nlo, nhi, vlo, vhi, a, b):
     return And(*[f for _, f in header_fact_list(nlo, nhi, vlo, vhi, a, b)])
 
@@ -396,6 +416,7 @@ class ParseHeaders(Contract):
         k = qvar("k")
         return out + [("hdr:" + nm, _each(seq, a, b, i)) for i, (nm, _f) in enumerate(
             header_fact_list(iv(0), iv(0), iv(0), iv(0), a, b))] + [
+            ("hdr:" + nm, _each_extra(seq, a, b, lrfs, i)) for i, nm in enumerate(EXTRA_NAMES)] + [
             ("headers-in-stream-order", And(seq.lo == 0, seq.hi >= 0, _ordered(seq))),
             ("field-count-within-limit", seq.hi <= lrf),
             ("underscore-names-only-when-privileged-or-dangerous",
@@ -415,6 +436,8 @@ class ParseHeaders(Contract):
     ] + [("hdr:" + nm, (lambda k: (lambda L: _hdrs(L, lambda seq, a, b: _each(seq, a, b, k))))(k))
          for k, nm in enumerate(["bounds", "line-end", "name-is-token", "colon-follows-name", "value-bounds",
                                  "only-OWS-trimmed-left", "value-has-no-NUL-CR-LF"])] + [
+    ] + [("hdr:" + nm, (lambda k: (lambda L: _hdrs(L, lambda seq, a, b: _each_extra(seq, a, b, L.fentry.obj(L.self).fields["limit_request_field_size"].t, k))))(k))
+         for k, nm in enumerate(EXTRA_NAMES)] + [
         ("headers-before-current-line", lambda L: _hdrs(L, lambda seq, a, b: _before(L, seq))),
         ("count<=consumed", lambda L: _hdrs(L, lambda seq, a, b: seq.hi <= _lines(L).lo)),
         ("underscore-policy", lambda L: _hdrs(L, lambda seq, a, b: _upolicy(L, seq))),
